@@ -95,7 +95,10 @@ int main(int argc, char** argv) {
     const char* td = getenv("TMPDIR"); std::string base = td && *td ? td : "/dev/shm";
     g_scratch = base + "/simrun_" + std::to_string(getpid()); mkdir(g_scratch.c_str(), 0700);
     struct Cleaner { ~Cleaner() { std::string c = "rm -rf '" + g_scratch + "'"; if (system(c.c_str())) {} } } cleaner;
-    std::set_terminate([] { printf("\n@@FATAL TERMINATE\n"); fflush(stdout); _exit(76); });
+    std::set_terminate([] {
+        std::string w = "(no active exception)";
+        try { auto e = std::current_exception(); if (e) std::rethrow_exception(e); } catch (std::exception& ex) { w = ex.what(); } catch (...) { w = "(not a std::exception)"; }
+        printf("\n@@FATAL TERMINATE what=%s\n", w.c_str()); fflush(stdout); _exit(76); });
 
     Plan fileplan; bool have_file = false;
     if (!planfile.empty()) { std::ifstream in(planfile); std::stringstream ss; ss << in.rdbuf(); if (!Plan::from_text(ss.str(), fileplan)) { fprintf(stderr, "bad plan file\n"); return 2; } have_file = true; workload = fileplan.workload; s0 = s1 = fileplan.seed; }
